@@ -2,6 +2,8 @@ import HdVerif.Proofs.Tiling
 import HdVerif.Generated.T5w
 import HdVerif.Generated.T5g
 import HdVerif.Generated.T4c
+import HdVerif.Generated.T4fi
+import HdVerif.Generated.T4fs
 /-! C04 bridges: the hand-written glue of `Model/Tiling.lean` uses exactly the expressions of the current source
 (regenerated on every run as `Generated/T5w.lean` — WHERE clause —, `T5g.lean` — missing-frame test —, `T4c.lean` —
 argument forwarding of the two `get_tile_array` calls of the Segmentation constructor).  A change of a comparison
@@ -130,5 +132,14 @@ theorem cutTilesAux_cons_uses_call {α} (z : α) (M : Img α) (R C tr tc ch : In
       | error e => rfl
       | ok v => rfl
     · rw [if_pos (by simpa using h), if_pos (by simpa using h)]
+
+/-- `Image.get_total_pixel_matrix` hands its four region arguments and `as_indices` on unchanged, with both missing-frame flags off -/
+theorem imageTpmCall_forwarding (a b c d : Int) (ai : Bool) : imageTpmCall a b c d ai = .ok (a, b, c, d, ai, false, false) := by
+  unfold imageTpmCall; rfl
+
+/-- `Segmentation.get_total_pixel_matrix` hands them on unchanged, with both missing-frame flags on -/
+theorem segTpmCall_forwarding (a b c d : Int) (ai : Bool) : segTpmCall a b c d ai = .ok (a, b, c, d, ai, true, true) := by
+  unfold segTpmCall; rfl
+
 
 end HdVerif.TilingLemmas
